@@ -18,13 +18,14 @@ for p in sorted(glob.glob(os.path.join(VERIF, "seeded", "reverts", "*.diff"))):
     c = os.path.basename(p)[:-5]
     targets.append(("revert-" + c, p, sorted(by_commit.get(c, []))))
 names = [a for a in sys.argv[1:] if not a.startswith("--")]
+seed = next((a.split("=")[1] for a in sys.argv[1:] if a.startswith("--seed=")), "0")
 if names:
     targets = [t for t in targets if t[0] in names]
 rows = []
 for name, patch, props in targets:
     for pid in props:
         t = time.time()
-        p = subprocess.run([os.path.join(VERIF, "tools", "try_mutant.sh"), patch, pid, "--tier", "quick"], capture_output=True, text=True)
+        p = subprocess.run([os.path.join(VERIF, "tools", "try_mutant.sh"), patch, pid, "--tier", "quick", "--seed", seed], capture_output=True, text=True)
         out = p.stdout
         keys = [l.split("mechanism=")[1].split(" occurrences")[0] for l in out.splitlines() if "mechanism=" in l]
         rc = [l for l in out.splitlines() if l.startswith("exit=")]
